@@ -120,7 +120,7 @@ def run_shard(spec):
             chars = [rnd.choice(pool) for _ in range(rnd.randrange(1, 12))]
         else:
             chars = [rnd.choice(pool) for _ in range(rnd.randrange(1, 12))]
-            bad = chr(rnd.choice([0x20AC, rnd.randrange(0x100, 0x2000), rnd.randrange(0xA0, 0xC0), rnd.randrange(0x3000, 0xD000)]))
+            bad = chr(rnd.choice([0x20AC, rnd.randrange(0x100, 0x2000), rnd.randrange(0xA0, 0xC0), rnd.randrange(0x3000, 0xD000), 0x7F, 0x7F, 0xA0, 0xFF]))
             while bad in ref_chars:
                 bad = chr(rnd.randrange(0x100, 0x2000))
             chars[rnd.randrange(len(chars))] = bad
